@@ -393,7 +393,6 @@ class Classifier:
 
 KNOWN_TEXT = {
     "yaml-ls-ps-string": "YAML only: a string or key containing U+2028/U+2029 comes back with spaces inserted after them (the YAML 1.1 emitter breaks the line there and indents, the YAML 1.2 loader keeps both)",
-    "yamldocuments-null": "exporting to 'YamlDocuments rejects null values (serialize::validate allows null for Json and Yaml only) although plain YAML export accepts them",
     "json-duplicate-keys": "a JSON object with a duplicate key is read differently by the two JSON loaders: std.deserialize 'Json (serde) keeps the last value, importing the file (event loader) keeps both definitions and merges them (error for different scalars)",
     "toml-datetime-deserialize": "std.deserialize 'Toml turns a TOML datetime into the record { \"$__toml_private_datetime\" = \"..\" } (the toml crate's private serde representation) while importing the same file gives the string",
 }
@@ -732,7 +731,13 @@ def check_yaml_scalars(ck, R, rng, quick, strs):
         fx = fields(x)
         ev = fx.get("EV", "")
         if ev.count(":") != 2:
-            ck.obligation("emit-scalar-observable", "correspondence", False, case + " " + x[:200])
+            # the exported document cannot even be scanned back
+            if ev == "scanerr" and has_lsps(s):
+                ck.hist("emitter_contract_breach", "yaml-ls-ps-string")
+                ck.violation("yaml-ls-ps-string", KNOWN_TEXT["yaml-ls-ps-string"],
+                             {"case": case, "string": s, "impl": x, "nickel": "std.deserialize 'Yaml (std.serialize 'Yaml %s)" % json.dumps(s)})
+            else:
+                ck.violation("yaml-emit-unreadable:" + first_bad_char(s), "the YAML text exported for a string cannot be read back", {"case": case, "string": s, "impl": x})
             continue
         st, tg, v = ev.split(":")
         mcases.append("ys\t%s\t%s\t%s" % (st, tg, v))
@@ -788,7 +793,6 @@ def check_values(ck, R, rng, quick, tables, clf, corpus):
         specs.append(gen_value(rng, rng.range(1, 5), tables, toml_ok, top=True))
     cases = ["val\t" + json.dumps(s, ensure_ascii=True, separators=(",", ":")) for s in specs]
     recheck = []     # (case, fmt, oracle, result): YAML errors on values containing U+2028/U+2029
-    nonull = []      # 'YamlDocuments export failed and the value contains a null
     deep = []
     for d in ([5, 20, 60, 100, 127, 128, 200] if quick else [5, 20, 40, 60, 70, 80, 90, 100, 120, 126, 127, 128, 129, 200, 400, 1000]):
         for leaf in ({"s": "%{x}\"\\"}, {"n": "1/10"}, {"a": []}):
@@ -836,10 +840,6 @@ def check_values(ck, R, rng, quick, tables, clf, corpus):
                     continue
                 ck.count("oracle_fail:%s.%s" % (fmt, o))
                 payload = r[r.index("(") + 1:-1] if "(" in r else r
-                if o == "docs" and r.startswith("ERR(Serialization") and "\"z\":0" in case:
-                    # the only accepted reason: a null somewhere in the array (checked again without nulls below)
-                    nonull.append((spec, case))
-                    continue
                 if depth is not None and depth >= 60 and r.startswith("ERR(") and fmt in ("json", "toml") and \
                         ("recursion_limit" in r or (fmt == "toml" and depth >= 80) or (fmt == "json" and depth >= 126 and "Deserialization" in r)):
                     # the external parsers' nesting limits (serde_json: 128, toml: about 80): an error, not a wrong value
@@ -866,18 +866,6 @@ def check_values(ck, R, rng, quick, tables, clf, corpus):
                     ck.violation(key, KNOWN_TEXT[key], replay)
                 else:
                     ck.violation("roundtrip:%s.%s:%s" % (fmt, o, r[:40]), "round trip through %s fails (%s)" % (fmt, o), replay)
-    # second pass for 'YamlDocuments: the same value with every null replaced must serialise
-    if nonull:
-        c2 = ["val\t" + json.dumps(replace_null(sp), ensure_ascii=True, separators=(",", ":")) for sp, _ in nonull]
-        a2 = R.impl_only(c2)
-        for (sp, case), x2 in zip(nonull, a2):
-            per2 = dict(f.split("=", 1) for f in x2.split("\t") if "=" in f)
-            nfail += 1
-            r2 = per2.get("yaml.docs", "?")
-            if r2 == "ok" or (r2.startswith("DIFF(") and clf.classify("yaml", "docs", r2[5:-1])):
-                ck.violation("yamldocuments-null", KNOWN_TEXT["yamldocuments-null"], {"case": case + "\tdetail", "oracle": "docs"})
-            else:
-                ck.violation("roundtrip:yaml.docs:" + r2[:40], "round trip through 'YamlDocuments fails", {"case": case + "\tdetail", "without_null": r2[:300]})
     # second pass: is U+2028/U+2029 the only reason?  replace them and run the oracles again
     if recheck:
         uniq = {}
